@@ -204,7 +204,7 @@ def run_impl(exe, hs, timeout=900):
     res = []
     for i, h in enumerate(hs):
         if i < len(outs):
-            res.append((outs[i].get("err", ""), outs[i].get("blocks", [])))
+            res.append((outs[i].get("err", ""), outs[i].get("blocks", []), outs[i].get("mut", [])))
         else:
             res.append(None)
     return rc, res, e
@@ -799,6 +799,17 @@ def gen_dash(rng):
     return finish_history(h)
 
 
+W_SAMECHAIN = dict(svcs=[[0, 1, 1, 1, 1, []],      # 1 A source
+                         [0, 1, 1, 0, 1, []],      # 2 A frozen (unavailable): begin failure on the source's own chain
+                         [0, 1, 1, 1, 0, []],      # 3 A not registered
+                         [0, 1, 1, 1, 1, [1]],     # 4 A blacklists service 1
+                         [0, 2, 1, 1, 1, []],      # 5 B
+                         [0, 1, 1, 1, 1, []],      # 6 A available
+                         [0, 2, 1, 0, 1, []]],     # 7 B frozen
+                   hubs=[])
+WORLDS["samechain"] = W_SAMECHAIN
+
+
 def gen_hub(rng, world=None, audit=None):
     """this hub as SOURCE hub: requests to services of remote BitXHubs (one available, one not) and the
     destination hub's begin-failure / rollback notices, mixed with local traffic"""
@@ -916,6 +927,15 @@ def eval_histories(ctx, pid, exe, hs, tag):
             if len(r[1]) != n_blocks(h):
                 ctx.broken("driver:ibtp", "block count mismatch")
                 continue
+            if len(r) > 2 and r[2]:
+                # delivered block results are immutable values: the driver kept every ExecutedEvent it was handed and
+                # looked at it again after all later blocks (and at the persisted InterchainMeta of its height)
+                if not ctx.violations:
+                    m = r[2][0]
+                    ctx.violation("the InterchainMeta of block item %s, as handed to the block-feed subscribers, differs when read again "
+                                  "after later blocks (%s): at delivery %s, later %s" % (m[0], m[1], json.dumps(m[2])[:300], json.dumps(m[3])[:300]),
+                                  dict(property=pid, driver="ibtp", history=shrink_mut(exe, h), mutated=r[2][:4]))
+                continue
             pairs.append((h, r[1]))
         if not pairs:
             continue
@@ -924,6 +944,31 @@ def eval_histories(ctx, pid, exe, hs, tag):
             continue
         out += [(h, impl, v) for (h, impl), v in zip(pairs, vs)]
     return out
+
+
+def shrink_mut(exe, h, budget=20):
+    """drop blocks from the end / ops while the delivered-event check still fires"""
+    def still(hh):
+        rc, res, e = run_impl(exe, [finish_history(hh)])
+        return bool(res) and res[0] is not None and not res[0][0] and len(res[0]) > 2 and bool(res[0][2])
+    cur = copy.deepcopy(h)
+    changed = True
+    while changed and budget > 0:
+        changed = False
+        for bi in range(len(cur["blocks"]) - 1, -1, -1):
+            if budget <= 0:
+                break
+            cand = copy.deepcopy(cur)
+            if cand["blocks"][bi] == 0 or len(cand["blocks"]) <= 1:
+                continue
+            if cand["blocks"][bi]:
+                cand["blocks"][bi] = []
+            else:
+                del cand["blocks"][bi]
+            budget -= 1
+            if still(cand):
+                cur, changed = cand, True
+    return finish_history(cur)
 
 
 def shrink(ctx, pid, exe, h, code, budget=30):
@@ -1106,6 +1151,9 @@ def replay_check(ctx, pid, path):
     rc, res, e = run_impl(exe, [h])
     if not res or res[0] is None or res[0][0]:
         print("driver error", res, e[-500:])
+        return 1
+    if len(res[0]) > 2 and res[0][2]:
+        print(json.dumps(dict(history=h, mutated=res[0][2][:4], verdict="delivered event changed after delivery")))
         return 1
     vs = judge(ctx, pid, [(h, res[0][1])], "replay")
     cands = candidates()
